@@ -4,14 +4,15 @@ import common as C
 import gen as G
 import cont
 
-MODEL_TARGETS = ["spec/FileSpec.vo", "model/Container.vo"]
+MODEL_TARGETS = ["spec/FileSpec.vo", "spec/FileSpecCodec.vo", "model/Container.vo"]
 COQ_TARGETS = ["props/C06.vo", "proofs/ConstsTie.vo"]
-THEOREMS = [("C06", ["C06_grammar", "C06_layout", "C06_header_is_grammar", "C06_accepts", "C06_accepts_codec_absent", "C06_long", "C06_long_is_crate"])]
-PROOF_FILES = ["proofs/ContainerProofs.v", "props/C06.v", "proofs/ContainerReadProofs.v", "proofs/ContainerHeaderProofs.v"]
+THEOREMS = [("C06", ["C06_grammar", "C06_layout", "C06_header_is_grammar", "C06_accepts", "C06_accepts_codec_absent", "C06_long", "C06_long_is_crate", "C06_codec_layout", "C06_codec_values", "C06_snappy_crc32_layout"])]
+PROOF_FILES = ["proofs/ContainerProofs.v", "props/C06.v", "proofs/ContainerReadProofs.v", "proofs/ContainerHeaderProofs.v", "proofs/ContainerCodecProofs.v", "proofs/ContainerCodecLayout.v"]
 TRUSTED_BASE = [
     "Coq 8.16.1 kernel; no axioms (Print Assumptions: closed); no native_compute",
     "extraction (ExtrOcamlBasic only) + ocaml/driver.ml (parsing/printing); Rust harness avrodrive",
     "spec/FileSpec.v transcribes the container layout of the Avro specification; its extracted parser judges the crate's files",
+    "spec/FileSpecCodec.v (written from the specification text): the codec layer of the layout -- block size is the size AFTER the codec, avro.codec absent = null, snappy = raw block + big-endian CRC-32 (bitwise definition, check value proved) of the uncompressed data; used in theorems only (C06_codec_*): any independent reader whose decompressor inverts the writer's codec function reads, block by block, the specification encodings of the written values",
     "second implementation: apache-avro 0.17 (harness commands apache_read / apache_write); Python zlib/bz2/lzma decode deflate/bzip2/xz block data independently (one complete stream per block, nothing behind it); snappy / zstandard block data are decoded by the snap / zstd crates' own decoders (harness command blockdec, not the crate's reader) and the snappy trailer is compared with Python's zlib.crc32",
     "hook H3 (hooks/H3.diff, harness command cwh): the starting length of the encode loops' output buffer is set by the run; the crate's value 32768 is one of the values used",
     "OCaml driver command cwraw: Container.v's writer model (parametric in the block compressor) instantiated with the identity and the codec's name; lib/cont.py raw_view rebuilds the same view of the crate's file from the reference parser's blocks and the independent decoders' payloads",
